@@ -245,7 +245,39 @@ def replay_table(model, n=3, node=1, kr_desc=False, ref_order=None):
     return bool(problems), {"what": "; ".join(problems) or "scaled pseudopressure increasing, 1 at p_i, frac face in [0,1)", "inputs": m}
 
 
-def job_table(job, n, node, kr_desc=False, ref_order=None):
+def replay_table_untouched(model):
+    """Real from_table on a dict of arrays and on a DataFrame: the caller's PVT table, rel-perm table and reference densities
+    are as they were (same keys / columns, same values) afterwards."""
+    import copy
+    import warnings
+    import numpy as np
+    import pandas as pd
+    from bluebonnet.flow import flowproperties as fp
+    n = 4
+    p = np.array([100.0, 1000.0, 2500.0, 4000.0])
+    base = {"pressure": p, "pseudopressure": np.linspace(0.0, 1.0, n), "Bo": 1.1 + 1e-5 * p, "Bg": 5.0 / p, "Bw": np.full(n, 1.02), "Rs": 0.1 * p / 1000, "Rv": np.full(n, 0.01),
+            "mu_o": np.full(n, 1.5), "mu_g": np.full(n, 0.02), "mu_w": np.full(n, 0.7), "So": np.full(n, 0.6)}
+    kr = {"So": np.array([0.0, 0.9]), "Sg": np.array([0.9, 0.0]), "Sw": np.array([0.1, 0.1]), "kro": np.array([0.0, 0.8]), "krg": np.array([0.7, 0.0]), "krw": np.array([0.0, 0.0])}
+    ref = {"rho_o0": 50.0, "rho_g0": 0.05, "rho_w0": 62.4}
+    problems = []
+    for label, mk in (("dict of arrays", lambda d: {k: v.copy() for k, v in d.items()}), ("DataFrame", lambda d: pd.DataFrame({k: v.copy() for k, v in d.items()}))):
+        pvt_in, kr_in, ref_in = mk(base), mk(kr), dict(ref)
+        keep = (copy.deepcopy(pvt_in), copy.deepcopy(kr_in), dict(ref_in))
+        with warnings.catch_warnings():
+            warnings.simplefilter("ignore")
+            with np.errstate(all="ignore"):
+                fp.FlowPropertiesTwoPhase.from_table(pvt_in, kr_in, ref_in, 0.1, 0.1, 2500.0)
+        for nm, now, was in (("PVT table", pvt_in, keep[0]), ("rel-perm table", kr_in, keep[1])):
+            if list(now.keys()) != list(was.keys()):
+                problems.append(f"{label}: the caller's {nm} has columns {list(now.keys())} after from_table, {list(was.keys())} before")
+            elif any(not np.array_equal(np.asarray(now[c]), np.asarray(was[c])) for c in was.keys()):
+                problems.append(f"{label}: values of the caller's {nm} changed: " + ", ".join(c for c in was.keys() if not np.array_equal(np.asarray(now[c]), np.asarray(was[c]))))
+        if ref_in != keep[2]:
+            problems.append(f"{label}: the caller's reference densities changed to {ref_in}")
+    return bool(problems), {"what": "; ".join(problems[:3]) or "from_table leaves the caller's tables alone", "inputs": {}}
+
+
+def job_table(job, n, node, kr_desc=False, ref_order=None, effects_only=False):
     """from_table: plumbing into the wrapper + wrapper behaviour for any computed pseudopressure that
     satisfies what job_pp establishes (0 at the first row, strictly increasing)."""
     rec = {}
@@ -292,7 +324,10 @@ def job_table(job, n, node, kr_desc=False, ref_order=None):
 
     def run():
         rec.clear()
+        from .common import snapshot, touched
+        snaps = (snapshot(tab), snapshot(krt), snapshot(ref))
         obj = mod.FlowPropertiesTwoPhase.from_table(tab, krt, ref, vs["phi"], vs["Sw"], ps[node])
+        rec["touched"] = [f"{nm}: {t_}" for nm, t_ in zip(("PVT table", "rel-perm table", "reference densities"), (touched(s_) for s_ in snaps)) if t_]
         return obj, obj.m_scaled_func(vs["pf"]), dict(rec)
 
     res = paths(job, run, dom, max_paths=64)
@@ -305,6 +340,14 @@ def job_table(job, n, node, kr_desc=False, ref_order=None):
             continue
         normal += 1
         obj, mf, r = pr.value
+        ttag = f"table[{n},{node}{',kr rows by decreasing So' if kr_desc else ''}]"
+        if r.get("touched"):
+            job._violation(f"{ttag}/from_table leaves the caller's tables alone[path{k}]", {},
+                           {"what": "; ".join(r["touched"]), "replayer": "replay_table_untouched", "replayer_kwargs": {}}, None)
+        else:
+            job.record(f"{ttag}/from_table leaves the caller's tables alone[path{k}]", "unsat", 0.0, note="effect check on the path")
+        if effects_only:
+            continue
         ms = obj.pvt_props["m-scaled"].d
         job.prove(f"table[{n},{node}{',kr rows by decreasing So' if kr_desc else ''}]/reach[path{k}]", pr.pc, expect="sat")
         # plumbing: the computed pseudopressure / diffusivity (not the table's own column) reach the wrapper
